@@ -1,3 +1,29 @@
+/-
+  Props/C17CatmullChord.lean — C17, Catmull-Rom clause, the mathematics of ONE chord (exact real arithmetic; imported by
+  Props/C17Catmull.lean, which holds the headline `catmull_within_bound_real`).
+
+  * structural (every arithmetic, hence the IEEE instance): `catmullCtl` — the four control points `approximate_catmull`
+    hands to `catmull_subpath` for span `j` (`v1 = points[j-1]`, `points[0]` for the first span; `v4 = points[j+2]` or
+    `v3 * 2.0 - v2` behind the end) — and `approximate_catmull_spans`: for `n ≥ 2` control points the call succeeds and
+    emits `catmull_subpath(catmullCtl pts j)` for `j = 0 … n − 2`, in this order.
+  * `catmullExact v1 v2 v3 v4 : ℝ → ℝ × ℝ`, the cubic the code evaluates, per coordinate
+    `0.5·(2 v2 + (−v1 + v3) t + (2v1 − 5v2 + 4v3 − v4) t² + (−v1 + 3v2 − 3v3 + v4) t³)` (`catmullCoord_std`: = the standard
+    basis form `catmullRomStd` of the rational theorem); `catmull_points_on_spline_real`: at the real instance
+    (Lemmas/RealScalar.lean) `catmull_subpath` emits exactly `catmullExact` at `c/50` and `(c+1)/50`, `c = 0..49`.
+  * interpolation error of a real cubic `q = c0 + c1 t + c2 t² + c3 t³` against its chord on `[a, b]` (pure algebra):
+    `cubic_chord_error`: `q(t) − chord(t) = (t − a)(t − b)(c2 + c3 (t + a + b))`; `cubic_chord_error_le` (`≤ (b−a)²/4 · K`);
+    `cubic_chord_error_le_second_deriv`: `≤ (b − a)²/8 · sup_{[a,b]} |q''|` (the classical form; `half_second_deriv`:
+    `c2 + c3 (t + a + b) = q''((t + a + b)/3)/2`); `cubic_chord_error_sharp`: equality for quadratics at the midpoint.
+  * the bound: `catmullAcc` = `q''` (`catmullCoord_hasDerivAt`, `catmullVelCoord_hasDerivAt`), affine in `t`;
+    `catmullM = max ‖q''(0)‖ ‖q''(1)‖` is `sup_{[0,1]} ‖q''‖` in the Euclidean norm `eNorm = √(x² + y²)` (`catmullAcc_le_M`,
+    `catmullM_attained`), `catmullM ≤ ‖2v1 − 5v2 + 4v3 − v4‖ + 3‖−v1 + 3v2 − 3v3 + v4‖` (`catmullM_le_coeff`);
+    `catmullBound = (1/50)²/8 · catmullM = catmullM / 20000`.
+  * `catmull_chord_sqDist` / `catmull_chord_within`: on chord `c` with weight `l` the exact point `q((c + l)/50)` and the chord
+    point `(1 − l) q(c/50) + l q((c+1)/50)` are within `catmullBound` (Euclidean distance `eDist`, Lemmas/ArcSagitta.lean);
+    `catmull_chord_error_sharp`: for spans with vanishing cubic coefficient the same-parameter distance at the middle of
+    every chord EQUALS `catmullBound`.
+  * `catmullBound_example`: for `(0,0), (100,0), (100,100), (0,100)` the bound is `√100000 / 20000 ∈ (0.0158, 0.016)` px.
+-/
 import RosuModel.Props.C17ArcTol
 import RosuModel.Lemmas.Outcome
 set_option linter.unusedSectionVars false
@@ -368,5 +394,79 @@ theorem catmull_chord_within (v1 v2 v3 v4 : Pos ℝ) (c : Nat) (hc : c < 50) (l 
   rw [show (c : ℝ) / 50 + l * (1 / 50) = ((c : ℝ) + l) / 50 by ring,
     show (c : ℝ) / 50 + 1 / 50 = ((c : ℝ) + 1) / 50 by ring] at h
   exact eDist_le_of_sqDist_le (catmullBound_nonneg _ _ _ _) h
+
+/-! ### `catmullAcc` is the second derivative; sharpness; a concrete span -/
+
+noncomputable def catmullVelCoord (a b c d t : ℝ) : ℝ :=
+  1 / 2 * ((-a + c) + 2 * (2 * a - 5 * b + 4 * c - d) * t + 3 * (-a + 3 * b - 3 * c + d) * t ^ 2)
+
+theorem catmullCoord_hasDerivAt (a b c d t : ℝ) :
+    HasDerivAt (catmullCoord a b c d) (catmullVelCoord a b c d t) t := by
+  have h1 : HasDerivAt (fun t : ℝ => t) 1 t := hasDerivAt_id' t
+  have h2 : HasDerivAt (fun t : ℝ => t ^ 2) (2 * t) t := by simpa using hasDerivAt_pow 2 t
+  have h3 : HasDerivAt (fun t : ℝ => t ^ 3) (3 * t ^ 2) t := by simpa using hasDerivAt_pow 3 t
+  have := ((((hasDerivAt_const t (2 * b)).add (h1.const_mul (-a + c))).add
+    (h2.const_mul (2 * a - 5 * b + 4 * c - d))).add (h3.const_mul (-a + 3 * b - 3 * c + d))).const_mul (1 / 2)
+  have e : catmullVelCoord a b c d t = 1 / 2 * (0 + (-a + c) * 1 + (2 * a - 5 * b + 4 * c - d) * (2 * t) +
+      (-a + 3 * b - 3 * c + d) * (3 * t ^ 2)) := by unfold catmullVelCoord; ring
+  rw [e]
+  exact this
+
+theorem catmullVelCoord_hasDerivAt (a b c d t : ℝ) :
+    HasDerivAt (catmullVelCoord a b c d) (catmullAccCoord a b c d t) t := by
+  have h1 : HasDerivAt (fun t : ℝ => t) 1 t := hasDerivAt_id' t
+  have h2 : HasDerivAt (fun t : ℝ => t ^ 2) (2 * t) t := by simpa using hasDerivAt_pow 2 t
+  have := (((hasDerivAt_const t (-a + c)).add (h1.const_mul (2 * (2 * a - 5 * b + 4 * c - d)))).add
+    (h2.const_mul (3 * (-a + 3 * b - 3 * c + d)))).const_mul (1 / 2)
+  have e : catmullAccCoord a b c d t = 1 / 2 * (0 + 2 * (2 * a - 5 * b + 4 * c - d) * 1 +
+      3 * (-a + 3 * b - 3 * c + d) * (2 * t)) := by unfold catmullAccCoord; ring
+  rw [e]
+  exact this
+
+theorem catmullBound_example :
+    catmullBound ⟨0, 0⟩ ⟨100, 0⟩ ⟨100, 100⟩ ⟨0, 100⟩ < 16 / 1000 ∧
+    158 / 10000 < catmullBound ⟨0, 0⟩ ⟨100, 0⟩ ⟨100, 100⟩ ⟨0, 100⟩ := by
+  have h0 : eNorm (catmullAcc ⟨0, 0⟩ ⟨100, 0⟩ ⟨100, 100⟩ ⟨0, 100⟩ 0) = √100000 := by
+    unfold eNorm catmullAcc catmullAccCoord; norm_num
+  have h1 : eNorm (catmullAcc ⟨0, 0⟩ ⟨100, 0⟩ ⟨100, 100⟩ ⟨0, 100⟩ 1) = √100000 := by
+    unfold eNorm catmullAcc catmullAccCoord; norm_num
+  have hM : catmullM ⟨0, 0⟩ ⟨100, 0⟩ ⟨100, 100⟩ ⟨0, 100⟩ = √100000 := by
+    unfold catmullM; rw [h0, h1, max_self]
+  rw [catmullBound_eq, hM]
+  constructor
+  · rw [div_lt_iff₀ (by norm_num), Real.sqrt_lt' (by norm_num)]; norm_num
+  · rw [lt_div_iff₀ (by norm_num)]; apply Real.lt_sqrt_of_sq_lt; norm_num
+
+/-- **the bound cannot be improved** (same-parameter distance): -/
+theorem catmull_chord_error_sharp (v1 v2 v3 v4 : Pos ℝ) (h3 : catmullC3 v1 v2 v3 v4 = (0, 0)) (c : Nat) :
+    eDist (catmullExact v1 v2 v3 v4 (((c : ℝ) + 1 / 2) / 50))
+        (segPt (catmullExact v1 v2 v3 v4 ((c : ℝ) / 50)) (catmullExact v1 v2 v3 v4 (((c : ℝ) + 1) / 50)) (1 / 2)) =
+      catmullBound v1 v2 v3 v4 := by
+  have hx : -v1.x + 3 * v2.x - 3 * v3.x + v4.x = 0 := congrArg Prod.fst h3
+  have hy : -v1.y + 3 * v2.y - 3 * v3.y + v4.y = 0 := congrArg Prod.snd h3
+  have hacc : ∀ t, catmullAcc v1 v2 v3 v4 t = catmullC2 v1 v2 v3 v4 := by
+    intro t
+    simp only [catmullAcc, catmullAccCoord, catmullC2, hx, hy]
+    ext <;> simp
+  have hM : catmullM v1 v2 v3 v4 = eNorm (catmullC2 v1 v2 v3 v4) := by
+    unfold catmullM; rw [hacc, hacc, max_self]
+  have hsq : sqDist (catmullExact v1 v2 v3 v4 (((c : ℝ) + 1 / 2) / 50))
+      (segPt (catmullExact v1 v2 v3 v4 ((c : ℝ) / 50)) (catmullExact v1 v2 v3 v4 (((c : ℝ) + 1) / 50)) (1 / 2)) =
+      (catmullBound v1 v2 v3 v4) ^ 2 := by
+    have e := eNorm_sq (catmullC2 v1 v2 v3 v4)
+    unfold catmullBound
+    rw [hM, mul_pow, e]
+    have k1 := catmullCoord_chord_error v1.x v2.x v3.x v4.x ((c : ℝ) / 50) (1 / 50) (1 / 2)
+    have k2 := catmullCoord_chord_error v1.y v2.y v3.y v4.y ((c : ℝ) / 50) (1 / 50) (1 / 2)
+    rw [show (c : ℝ) / 50 + 1 / 2 * (1 / 50) = ((c : ℝ) + 1 / 2) / 50 by ring,
+      show (c : ℝ) / 50 + 1 / 50 = ((c : ℝ) + 1) / 50 by ring] at k1 k2
+    simp only [sqDist, segPt, catmullExact, k1, k2, catmullAccCoord, hx, hy, catmullC2]
+    ring
+  unfold eDist
+  rw [hsq, Real.sqrt_sq (catmullBound_nonneg _ _ _ _)]
+
+/-- a span with `C3 = 0`: four samples of a parabola. -/
+example : catmullC3 ⟨0, 0⟩ ⟨1, 1⟩ ⟨2, 4⟩ ⟨3, 9⟩ = (0, 0) := by
+  unfold catmullC3; ext <;> norm_num
 
 end Rosu.C17
